@@ -324,6 +324,7 @@ func (c *Ctx) reachable(roots []*ssa.Function, dyn func(site ssa.CallInstruction
 	seen := map[*ssa.Function]bool{}
 	var work []*ssa.Function
 	push := func(f *ssa.Function) {
+		f = unwrapThunk(f) // a method expression T.m is a synthetic thunk (no package) around m
 		if f == nil || seen[f] || f.Blocks == nil || !inModule(f) {
 			return
 		}
